@@ -5,6 +5,7 @@
 #include <cstdarg>
 #include <cstdio>
 #include <cstring>
+#include <csignal>
 #include <fcntl.h>
 #include <netinet/in.h>
 #include <poll.h>
@@ -23,6 +24,7 @@ void reset() { S = State(); peer_port.clear(); }
 void logv(int code, std::vector<long long> const &args)
 {
   char tmp[32];
+  if(S.trace.size() > (4u << 20)) raise(SIGALRM);   // runaway (e.g. a task loop that never reads the clock): treat like a hang
   S.trace += "T ";
   snprintf(tmp, sizeof tmp, "%d", code); S.trace += tmp;
   for(auto a : args) { snprintf(tmp, sizeof tmp, " %lld", a); S.trace += tmp; }
